@@ -315,7 +315,8 @@ def _ref_kind(kind, arg):
 # value plans
 # ---------------------------------------------------------------------------------------------
 MAP_KEYS = [0, 255, 256, 65535, 65536, 2 ** 32 - 1, 2 ** 32, 2 ** 64 - 1]
-TEXTS = ['', 'abc', 'é', '€', '\U0001F600', 'x' * 300]
+TEXTS = ['', 'abc', 'é', '€', '\U0001F600', 'x' * 300, 'é' * 126, 'é' * 127, 'a' * 252, 'a' * 253]
+# (character count vs UTF-8 byte count on both sides of the 253 length boundary)
 
 
 def fixed_value(kind, arg, salt=0):
